@@ -60,7 +60,9 @@ def extract_model(P, ci, chk):
     # 2. cold runs through the guarded getters (which call the producers the way a read does):
     #    storage and read sets from the event log (data + control dependence tags)
     for flag, info in m.flags.items():
-        runs = sorted(info["getters"]) or sorted(info["producers"])
+        # through the guarded getters AND through the producers themselves: a getter whose guard is wrong never reaches its producer, and
+        # the storage it hands out would then not be known as storage
+        runs = sorted(set(info["getters"]) | set(info["producers"]))
         for gq in runs:
             fi = P.functions[gq]
             I = Interp(P)
@@ -283,6 +285,25 @@ def run(chk):
                 raise AnalysisError("empty read set derived for %s of %s" % (q, cq))
         check_class(chk, P, ci, m, qs)
     check_who_writes(chk, P, models)
+    # the smoothing-frequency grid is built at three places (range setter, constructor helper, point-count setter): all of them
+    # logspace(log10(lo), log10(hi), N, base=10) -- the same grid a fresh object gets
+    grids = []
+    for ci_ in (P.cls("eqsig.single.Signal"),):
+        for meth in list(ci_.methods.values()) + list(ci_.setters.values()):
+            for n in ast.walk(meth.node):
+                if isinstance(n, ast.Call) and ast.unparse(n.func).split(".")[-1] == "logspace":
+                    grids.append((meth, n))
+    for meth, n in grids:
+        a = n.args
+        base = next((k.value for k in n.keywords if k.arg == "base"), None)
+        lf = a[0].value.id if (len(a) >= 2 and isinstance(a[0], ast.Subscript) and isinstance(a[0].value, ast.Name)) else None
+        src = [x.value for x in ast.walk(meth.node) if isinstance(x, ast.Assign) and len(x.targets) == 1 and isinstance(x.targets[0], ast.Name) and
+               x.targets[0].id == lf] if lf else []
+        okg = len(a) >= 3 and lf is not None and ast.unparse(a[0]) == "%s[0]" % lf and ast.unparse(a[1]) == "%s[1]" % lf and \
+            (base is None or (isinstance(base, ast.Constant) and base.value == 10)) and len(src) == 1 and isinstance(src[0], ast.Call) and \
+            ast.unparse(src[0].func).split(".")[-1] == "log10"
+        chk.ob("R-GUARD", "eqsig/single.py:%s.%s{grid}" % (meth.cls.name, meth.name), "smoothing grid = logspace(log10(limits)[0], log10(limits)[1], N, base=10)",
+               okg, derived=" ".join(ast.unparse(n).split()), loc=meth.loc(n), stmt=norm_stmt(n), inconclusive=(lf is None))
     # a read regenerates through generate_*; an explicit gen_*() with the options left out must compute the same thing
     A_ = "eqsig.single.AccSignal"
     S_ = "eqsig.single.Signal"
@@ -333,6 +354,16 @@ def check_class(chk, P, ci, m, qs):
         ex = exit_ev[-1]
         exit_state = ex.state if (ex is not None and ex.normal) else None
         oo = exit_state.heap.get(o.id) if exit_state is not None else None
+        # an operation that raises for every input on the default path of a public operation (None + 1, an index past a tuple ...): the
+        # operation cannot be performed at all, whatever it was meant to leave behind
+        ill = [e for e in I.events if e.kind in ("type-error", "index-error") and e.fn == meth.qualname]
+        seen_ill = set()
+        for e in ill:
+            if (e.loc, e.what) in seen_ill or len(seen_ill) >= 2:
+                continue
+            seen_ill.add((e.loc, e.what))
+            chk.ob("R-INV", construct + "[well-typed]", "no operation on the path raises for every input", False, derived=e.what, loc=e.loc, stmt=e.stmt,
+                   detail="the operation cannot complete: it raises")
         # R-INV: one obligation per (entry, quantity)
         remaining = {}
         if exit_state is not None:
